@@ -506,7 +506,7 @@ func TestVP_C22_Burst(t *testing.T) {
 		sizes = append(sizes, 20000, 50000)
 	}
 	rapid.Check(t, func(t *rapid.T) {
-		pool := vpC22Pool(t, 48, 300, 2000)
+		pool := vpC22Pool(t, 48, 300, vpScale(1000, 2000))
 		salt := rapid.Uint64Range(0, 1<<40).Draw(t, "salt")
 		for _, c := range vpC22Codecs() {
 			levels := vpC22Levels(c)
@@ -544,7 +544,7 @@ func TestVP_C22_Burst(t *testing.T) {
 				}
 				bad, first := vpC22Burst(c, calls)
 				vpCase(class, n >= 64, fmt.Sprintf("%s/%d/%d", c.name, n, salt), func() string {
-					return fmt.Sprintf("%d simultaneous %s calls, bodies 300-2000 B, levels -10..20, salt %d", n, c.name, salt)
+					return fmt.Sprintf("%d simultaneous %s calls, bodies 300-1000 B (thorough: 2000), levels -10..20, salt %d", n, c.name, salt)
 				})
 				if bad > 0 {
 					t.Fatalf("%s: %d of %d simultaneous calls returned output that does not decode to their input; first: %s", c.name, bad, n, first)
@@ -709,7 +709,7 @@ func TestVP_C22_BurstWriter(t *testing.T) {
 		sizes = append(sizes, 10000, 20000)
 	}
 	rapid.Check(t, func(t *rapid.T) {
-		pool := vpC22Pool(t, 48, 300, 2000)
+		pool := vpC22Pool(t, 48, 300, vpScale(1000, 2000))
 		salt := rapid.Uint64Range(0, 1<<40).Draw(t, "salt")
 		codecs := vpC22Codecs()
 		key := vpC22KeyWriter
@@ -753,7 +753,7 @@ func TestVP_C22_BurstWriter(t *testing.T) {
 			}
 			bad, first := vpC22Burst(codecs[0], calls)
 			vpCase(fmt.Sprintf("burst-writer/N=%d", n), n >= 64, fmt.Sprintf("w/%d/%d", n, salt), func() string {
-				return fmt.Sprintf("%d simultaneous Write{Gzip,Deflate,Brotli,Zstd}Level calls on a generic io.Writer, bodies 300-2000 B, salt %d", n, salt)
+				return fmt.Sprintf("%d simultaneous Write{Gzip,Deflate,Brotli,Zstd}Level calls on a generic io.Writer, bodies 300-1000 B (thorough: 2000), salt %d", n, salt)
 			})
 			if bad > 0 {
 				t.Fatalf("%d of %d simultaneous Write*Level(generic writer) calls did not round-trip; first: %s", bad, n, first)
